@@ -505,6 +505,7 @@ class Gen:
         self.sites = {}  # id -> number of places the clause was spliced
         self.dropped = []
         self.fn_segs = []
+        self._placeholders = {}
         self._consts = set()
         self.fn_ranges = []  # (byte_start, byte_end, item)
 
